@@ -104,6 +104,23 @@ ROUND7 = {
     'C18': " Round 7: the heartbeat facets are read only for RUNNING events; every facet field takes its value through default_factory (no value can make START unbuildable).",
 }
 
+# obligations added in round 8
+ROUND8 = {
+    'C03': " Round 8: only None takes the publish-nothing path of MQ.send - an empty set is a set.",
+    'C04': " Round 8: a relay fast-forwards its own source when its consumer asks for an id far ahead (share of C06.R3).",
+    'C05': " Round 8: every push is non-blocking on every path; an ephemeral client's CLOSE, the id it asks for and a half received set of an ephemeral source change nothing for the synchronized stream.",
+    'C06': " Round 8: requests are non-blocking on every path (share of C05.R8); client keys are built from text; request ages and timeouts are measured on the monotonic clock.",
+    'C08': " Round 8: the deadline is also tested on the error path of the main loop (LOOP_EXC off); one clock for the exit_after deadline everywhere; the exit of a source whose set is complete must be heard (known finding D57).",
+    'C09': " Round 8: share of C03.R3 (an empty set is sent as a set).",
+    'C10': " Round 8: the stored label agrees with the pixels' dimensionality on every construction path (path-based); no accessor caches a writable copy.",
+    'C12': " Round 8: the addresses of explicit sources are reserved like those of explicit outputs; only the wildcard spellings of a bind host become localhost (whole-host comparison).",
+    'C13': " Round 8: the prune loop accounts per removed file; the directory scan survives a file that disappears between listing and stat.",
+    'C14': " Round 8: share of the vanishing-file obligation (a reader restarts while the writer prunes).",
+    'C15': " Round 8: zeromq.py and mq.py are in scope; every URI in a string is masked (no count limit); the last-resort handler of Filter.run masks what it logs; option-like password pieces and '/'-passwords in s3 / gs URIs are known findings.",
+    'C17': " Round 8: a box is painted inside its rectangle only (clipped, far edge exclusive, any memory layout); no accessor caches a writable copy (share of C10.R13).",
+    'C18': " Round 8: every ending after START emits a terminal event, also KeyboardInterrupt / SystemExit in the init and setup stages; each START draws a run id of its own; the facet key normaliser cannot produce a reserved name.",
+}
+
 NOT_APPLICABLE = {
     'C11': 'Every clause is an equality between values computed by string parsing over an unbounded grammar; there is no renderer to pair with the parsers and the only structural facts in reach are already caught by the existing test_normalize_config tests, so a static proxy would detect nothing new (DESIGN.md §5).',
 }
@@ -118,7 +135,7 @@ def main():
         if pid not in reg:
             continue
         tech, text, ref, nd = CLAIMS[pid]
-        text += ROUND6.get(pid, '') + ROUND7.get(pid, '')
+        text += ROUND6.get(pid, '') + ROUND7.get(pid, '') + ROUND8.get(pid, '')
         checks.append({
             'property_id': pid,
             'quick_cmd': f'./check {pid} --tier quick',
